@@ -13,6 +13,8 @@ import sys
 from concurrent.futures import ThreadPoolExecutor
 
 VERIF = "/verif"
+# where ./check is run from: a snapshot worktree of /verif (a commit) lets the checks be edited while an evaluation runs
+CHECK_ROOT = __import__("os").environ.get("VERIF_CHECK_ROOT", VERIF)
 
 
 def sh(cmd, cwd=None, timeout=3600, env=None):
@@ -48,7 +50,7 @@ def lane_run(lane, sids, workers):
                     print(f"{sid}: stored patch rebased onto the current /repo head", flush=True)
                 sh(f"git -C {wt} reset -q")
             try:
-                rcc, oc = sh(f"./check {prop}", cwd=VERIF, env=env)
+                rcc, oc = sh(f"./check {prop}", cwd=CHECK_ROOT, env=env)
             finally:
                 sh(f"git -C {wt} checkout -- .")
             keys = [l.split()[1] for l in oc.splitlines() if l.strip().startswith("violation ")]
